@@ -148,6 +148,19 @@ def programs(ctx):
         p.meta["generic"] = True
         out.append(p)
         i += 1
+    # ignored is ignored for `==` as well: a field that the Eq assertion exempts because of an `ignore` on ANY of the attributes that reach
+    # Eq must not be compared by the derived `==` through a key on a more specific attribute (float keys: a NaN would break reflexivity)
+    for j, (attrs, fty, mk) in enumerate([("#[eq(key = key_f(&$))] #[ord(ignore)]", "u8", "1, 2"), ("#[partial_eq(key = key_f2(&$))] #[eq(ignore)]", "u8", "1, 2"),
+                                          ("#[partial_ord(key = key_f2(&$))] #[ord(ignore)]", "u8", "3, 4"), ("#[eq(by = by_ne)] #[ord(ignore)]", "u8", "5, 6")]):
+        text = ("#[derive_ex::derive_ex(Eq, PartialEq)]\npub struct X { pub id: u8, %s pub w: %s }\n#[derive_ex::derive_ex(Eq, PartialEq)]\npub enum E { A(u8, %s %s), B }\n"
+                "pub fn key_f2<T: Copy + Into<f32>>(x: &T) -> f32 { if (*x).into() == 1.0 { f32::NAN } else { (*x).into() } }\npub fn by_ne<T: PartialEq>(a: &T, b: &T) -> bool { a != b }\n"
+                "pub fn need_eq<T: Eq>() {}\npub fn ncheck() -> Vec<String> { need_eq::<X>(); need_eq::<E>(); let mut out = Vec::new(); let (a, b) = (%s);\n"
+                "    if (X { id: 0, w: a }) != (X { id: 0, w: b }) || (X { id: 0, w: a }) != (X { id: 0, w: a }) { out.push(\"struct: the ignored (Eq-exempt) field takes part in ==\".to_string()); }\n"
+                "    if E::A(0, a) != E::A(0, b) || E::A(0, a) != E::A(0, a) { out.push(\"enum: the ignored (Eq-exempt) field takes part in ==\".to_string()); }\n    out }\n"
+                "pub fn replay(h: &str, b: &[u8]) -> (bool, String) { (true, String::new()) }\n" % (attrs, fty, attrs, fty, mk))
+        p = E.Prog("p_ign%d" % j, text, [], {"describe": "pub struct X { id: u8, %s w: %s } (and the same as enum variant field)  [exempt from the Eq assertion by ignore: == must ignore it too]" % (attrs, fty)}, ncheck=True)
+        p.meta["generic"] = False
+        out.append(p)
     for (lst, item, must) in EXTRA:
         generic = "<T>" in item
         must_c = False if must is None else must
@@ -184,6 +197,11 @@ def run(ctx):
                 elif not any(("Eq" in d["message"] and ("not satisfied" in d["message"] or "E0277" == d.get("code") or _re.search(r"\[components? [^\]]*refuse", p.meta["describe"]))) for d in diags):
                     ctx.violation("E:C17:wrong-reason:" + p.meta["describe"], "refused, but not because a component lacks Eq: " + diags[0]["message"],
                                   {"layer": "E", "program": p.text, "harness": "", "meta": p.meta, "rustc": diags[:2], "extra_support": SUPPORT})
+        if any(p.ncheck and p.name not in c.excluded for p in c.progs):
+            for pn, msgs in c.run_native().items():
+                pp = next(q for q in c.progs if q.name == pn)
+                for msg in msgs:
+                    ctx.violation("E:C17:native:" + pp.meta["describe"] + ":" + msg[:80], "native run on the real expansion: " + msg, {"layer": "E", "program": pp.text, "harness": "ncheck", "meta": pp.meta, "extra_support": SUPPORT, "native": msg})
     g = glayer.run_g(ctx, G_UNITS)
     ctx.assumptions += [
         "the force of the Eq assertion is rustc's: the emitted `_eq<T: Eq + ?Sized>` bound is a machine-checked contract on the generated code and the verifier discharging it is rustc's trait solver; the check compares rustc's accept/reject (cargo check) of every program with the reference rule",
